@@ -25,6 +25,13 @@ class Sim:
         self.log = []
 
     # spots currently lit
+    def apart(self):
+        """two lit tones of one axis at the same coordinate: two tweezers on one spot"""
+        for name, on in (("x", self.xon), ("y", self.yon)):
+            vals = list(on.values())
+            if len(set(vals)) != len(vals):
+                raise Reject("ECollide", f"two lit {name} tones share a coordinate: {sorted(map(float, vals))}")
+
     def spots(self):
         return {(i, j): (self.xon[i], self.yon[j]) for i in self.xon for j in self.yon}
 
@@ -49,6 +56,7 @@ class Sim:
                         self.xon[i] = xs[i]
                     for j in self.yon:
                         self.yon[j] = ys[j]
+                    self.apart()
                     cur = (xs, ys)
             elif a[0] == "S":
                 if cur is None:
@@ -62,6 +70,7 @@ class Sim:
                         self.xon[i] = xs[i]
                     for j in sy:
                         self.yon[j] = ys[j]
+                    self.apart()
                     for (i, j), pos in self.spots().items():
                         if (i, j) in before:
                             continue
